@@ -84,7 +84,12 @@ pub fn make_case_scaled(r: &mut rand::rngs::StdRng, k: usize, nenv: usize, safet
         let pose = nalgebra::Isometry3::identity();
         env.push(CollisionBody { mesh: scene::local_mesh(b, false, &pose), pose: pose.cast() });
     }
-    let constraints = Constraints::new(from, to, BY_PREV);
+    // (one robot in five got its limits narrowed after the constraints were created)
+    let constraints = if k % 5 == 1 {
+        let mut c = Constraints::new([-6.0; 6], [6.0; 6], BY_PREV);
+        c.update_range(from, to);
+        c
+    } else { Constraints::new(from, to, BY_PREV) };
     let (kws, ctor) = if k % 2 == 0 && !safety_margin {
         (KinematicsWithShape::new(p, constraints, joint_meshes, base_mesh, base_na, tool_mesh, tool_iso.to_na(), env, k % 4 == 0), "new")
     } else {
@@ -149,7 +154,8 @@ pub fn record(output: &str) {
                 if entry.contains("5dof") && k % 2 != 0 { continue; }
                 let pool = 1 + (k * 5 + rep * 3) % 16;
                 let inner = solver::call(kws.kinematics.as_ref(), entry, &pose, &prev, q[5]);
-                let outer = in_pool(pool, || solver::call(kws, entry, &pose, &prev, q[5]));
+                // (odd repetitions on the calling thread itself, the others inside a pool of the given size)
+                let outer = if rep % 2 == 1 { solver::call(kws, entry, &pose, &prev, q[5]) } else { in_pool(pool, || solver::call(kws, entry, &pose, &prev, q[5])) };
                 let (Some(inner), Some(outer)) = (inner, outer) else {
                     out.put(json!({"ev": "shape", "outcome": "panic", "entry": entry, "ctor": case.ctor}));
                     continue;
